@@ -26,6 +26,44 @@ def _find_func(tree, cls, name):
     raise TranslateError("function %s.%s not found" % (cls, name))
 
 
+def _pure_log_arg(e):
+    """expressions that cannot change control flow or values: constants, names, attributes, +, %, f-strings, tuples,
+    str()/repr()/len() of such"""
+    if isinstance(e, (ast.Constant, ast.Name)):
+        return True
+    if isinstance(e, ast.Attribute):
+        return _pure_log_arg(e.value)
+    if isinstance(e, ast.BinOp) and isinstance(e.op, (ast.Add, ast.Mod)):
+        return _pure_log_arg(e.left) and _pure_log_arg(e.right)
+    if isinstance(e, (ast.Tuple, ast.List)):
+        return all(_pure_log_arg(x) for x in e.elts)
+    if isinstance(e, ast.JoinedStr):
+        return all(_pure_log_arg(v) for v in e.values)
+    if isinstance(e, ast.FormattedValue):
+        return _pure_log_arg(e.value)
+    if isinstance(e, ast.Call) and isinstance(e.func, ast.Name) and e.func.id in ("str", "repr", "len") and not e.keywords:
+        return all(_pure_log_arg(a) for a in e.args)
+    return False
+
+
+def is_noise(st):
+    """statements a translator may skip: pass, bare string constants, logging.<level>(pure arguments)"""
+    if isinstance(st, ast.Pass):
+        return True
+    if isinstance(st, ast.Expr) and isinstance(st.value, ast.Constant) and isinstance(st.value.value, str):
+        return True
+    if isinstance(st, ast.Expr) and isinstance(st.value, ast.Call):
+        c = st.value
+        if isinstance(c.func, ast.Attribute) and isinstance(c.func.value, ast.Name) and c.func.value.id == "logging" \
+                and c.func.attr in ("debug", "info", "warning", "warn", "error", "critical") and not c.keywords:
+            return all(_pure_log_arg(a) for a in c.args)
+    return False
+
+
+def strip_noise(stmts):
+    return [st for st in stmts if not is_noise(st)]
+
+
 def coq_string(s):
     if any(ord(ch) > 126 or ord(ch) < 32 for ch in s):
         raise TranslateError("non-printable string constant")
@@ -49,12 +87,23 @@ def gen_decision():
         if not (isinstance(d, ast.Constant) and isinstance(d.value, int) and not isinstance(d.value, bool)):
             raise TranslateError("default of %s is not an integer literal" % a)
         defaults[a] = d.value
-    body = list(f.body)
-    if body and isinstance(body[0], ast.Expr) and isinstance(body[0].value, ast.Constant) and isinstance(body[0].value.value, str):
-        body = body[1:]
+    body = strip_noise(list(f.body))
     env = set(params)
     eps_names = []
-    # leading assignments: only  <name> = np.finfo(float).eps
+    alias = {}
+
+    def expr(e):
+        if isinstance(e, ast.Name):
+            if e.id in alias:
+                return alias[e.id]
+            if e.id not in env:
+                raise TranslateError("unknown name " + e.id)
+            return e.id
+        if isinstance(e, ast.BinOp) and isinstance(e.op, ast.Mult):
+            return "(mul %s %s)" % (expr(e.left), expr(e.right))
+        raise TranslateError("unsupported arithmetic expression: " + ast.dump(e)[:80])
+
+    # leading assignments:  <name> = np.finfo(float).eps   or   <name> = <product of known names>
     while body and isinstance(body[0], ast.Assign):
         a = body[0]
         if len(a.targets) != 1 or not isinstance(a.targets[0], ast.Name):
@@ -65,19 +114,15 @@ def gen_decision():
               and isinstance(v.value.func.value, ast.Name) and v.value.func.value.id in ("np", "numpy")
               and len(v.value.args) == 1 and isinstance(v.value.args[0], ast.Name) and v.value.args[0].id == "float")
         if not ok:
-            raise TranslateError("unsupported assignment value (only np.finfo(float).eps)")
+            # a local abbreviation of an arithmetic expression over known names (inlined); assigned once
+            if a.targets[0].id in env or a.targets[0].id in alias:
+                raise TranslateError("re-assignment of " + a.targets[0].id)
+            alias[a.targets[0].id] = expr(v)
+            body = body[1:]
+            continue
         eps_names.append(a.targets[0].id)
         env.add(a.targets[0].id)
         body = body[1:]
-
-    def expr(e):
-        if isinstance(e, ast.Name):
-            if e.id not in env:
-                raise TranslateError("unknown name " + e.id)
-            return e.id
-        if isinstance(e, ast.BinOp) and isinstance(e.op, ast.Mult):
-            return "(mul %s %s)" % (expr(e.left), expr(e.right))
-        raise TranslateError("unsupported arithmetic expression: " + ast.dump(e)[:80])
 
     def test(e):
         if isinstance(e, ast.BoolOp) and isinstance(e.op, ast.And):
@@ -109,6 +154,7 @@ def gen_decision():
 
     def block(stmts):
         """Translate a statement list every path of which returns."""
+        stmts = strip_noise(stmts)
         if not stmts:
             raise TranslateError("a path falls off the end without return")
         s = stmts[0]
@@ -125,6 +171,7 @@ def gen_decision():
         raise TranslateError("unsupported statement: " + type(s).__name__)
 
     def _always_returns(stmts):
+        stmts = strip_noise(stmts)
         if not stmts:
             return False
         s = stmts[-1]
